@@ -280,10 +280,15 @@ impl FromStr for PartialDSym {
             Err("size must be at least 1".into())
         } else if spec.dim < 1 {
             Err("dimension must be at least 1".into())
-        } else if spec.op_spec.len() != spec.dim as usize + 1 {
+        } else if spec.dim == usize::MAX || spec.op_spec.len() != spec.dim as usize + 1 {
             Err("incorrect dimension for op specifications".into())
         } else if spec.m_spec.len() != spec.dim as usize {
             Err("incorrect dimension for degree specifications".into())
+        } else if spec.op_spec[0].len() < spec.size / 2 {
+            // every entry defines at most two chambers
+            Err("incomplete op spec".into())
+        } else if spec.size == usize::MAX || spec.size.checked_mul(spec.dim + 1).is_none() {
+            Err("size too large".into())
         } else {
             let mut dset = PartialDSet::new(spec.size, spec.dim);
 
@@ -295,6 +300,9 @@ impl FromStr for PartialDSym {
                     if dset.op_unchecked(i, d) == 0 {
                         let &di = op_i.get(k)
                             .ok_or("incomplete op spec".to_string())?;
+                        if di < 1 || di > spec.size || dset.op_unchecked(i, di) != 0 {
+                            return Err("illegal op value".into());
+                        }
                         dset.set(i, d, di);
                         k += 1;
                     }
